@@ -104,9 +104,19 @@ func c07Worker(w *core.WorkerCtx) {
 	for k := 0; k < n; k++ {
 		longScenario(w, []string{"C07"}, k, c07Opts(w, k))
 	}
+	if w.Batch == 1 || (w.Thorough() && w.Batch%3 == 1) {
+		// a truncation cancelled in the middle of its persisting walk, then the next attempts
+		rng := core.Rand(w.Seed, "C07int", w.Batch)
+		longScenario(w, []string{"C07", "C09"}, 500, ledger.LongOpts{Nodes: 1, Size: 1030 + rng.Intn(80), Truncations: 2, Between: 200 + rng.Intn(200), MultiTip: rng.Intn(2) == 0, PostOps: 30, Interrupt: true})
+	}
 }
 
 func c01Truncation(w *core.WorkerCtx) {
+	if w.Batch == 2 || (w.Thorough() && w.Batch%8 == 2) {
+		// a truncation cancelled half way, then further attempts and overdrawing traffic
+		longScenario(w, []string{"C01"}, 1001, ledger.LongOpts{Nodes: 1, Size: 1040, Truncations: 2, Between: 150, PostOps: 80, Interrupt: true})
+		return
+	}
 	if w.Batch != 0 && !w.Thorough() {
 		return
 	}
@@ -117,6 +127,11 @@ func c01Truncation(w *core.WorkerCtx) {
 }
 
 func c09Truncation(w *core.WorkerCtx) {
+	if w.Batch == 1 || (w.Thorough() && w.Batch%8 == 1) {
+		// a truncation cancelled half way, then further attempts: the graph stays well formed, nothing dangles
+		longScenario(w, []string{"C09"}, 1001, ledger.LongOpts{Nodes: 1, Size: 1040, Truncations: 2, Between: 150, MultiTip: true, PostOps: 40, Interrupt: true})
+		return
+	}
 	if w.Batch != 0 && !w.Thorough() {
 		return
 	}
@@ -150,7 +165,7 @@ func init() {
 	core.Register(&core.Check{
 		Spec: core.Spec{
 			Prop:        "C07",
-			Rule:        "Ledgers of 1001-1400 vertices (single-node chains; wide DAGs from 2-3 nodes with lagging exchange; several tips through forged side branches; valid, all-funds, boundary and overdrawing transfers) are truncated through the hook that calls the real truncate, once or repeatedly (>= 1010 vertices in between), optionally racing with concurrent proposals. Around every truncation: per-tip reference balances and, single-tipped, the node's own CalculateBalance answers are identical before/after; every vertex and transaction ever seen confirmed is read back by hash with identical fields and still verifies; re-submission of checkpointed vertices/transactions (same vertex, same transaction, re-wrapped by another sealer) is refused; checkpoint funds per address equal the big-integer net flow of exactly the stored vertices; stored set only grows, nothing lost, nothing both live and stored; afterwards hostile traffic runs under the C01/C02/C03/C09 oracles. Non-trivial = every truncation and every lookup/re-offer after it; distinct by (nodes, tips, live bucket, prior checkpoint, moved bucket, race).",
+			Rule:        "Ledgers of 1001-1400 vertices (single-node chains; wide DAGs from 2-3 nodes with lagging exchange; several tips through forged side branches; valid, all-funds, boundary and overdrawing transfers) are truncated through the hook that calls the real truncate, once or repeatedly (>= 1010 vertices in between), optionally racing with concurrent proposals. Around every truncation: per-tip reference balances and, single-tipped, the node's own CalculateBalance answers are identical before/after; every vertex and transaction ever seen confirmed is read back by hash with identical fields and still verifies; re-submission of checkpointed vertices/transactions (same vertex, same transaction, re-wrapped by another sealer) is refused; checkpoint funds per address equal the big-integer net flow of exactly the stored vertices; stored set only grows, nothing lost, nothing both live and stored; one scenario cancels the first truncation in the middle of its persisting walk (a context that fires once m more vertices are in the storage) and demands that the interrupted attempt and every later attempt (which the code refuses) stay transparent in the same sense; afterwards hostile traffic runs under the C01/C02/C03/C09 oracles. Non-trivial = every truncation and every lookup/re-offer after it; distinct by (nodes, tips, live bucket, prior checkpoint, moved bucket, race).",
 			Assumptions: []string{ledgerAssume, "the cut position is what the real code picks (1000th visited ancestor of a map-order tip); the workload varies ledger length and shape around it"},
 			MinEvals:    500, MinNontriv: 3,
 			MinCounters: map[string]int{"c07_truncations": 2, "c07_vertices_checkpointed": 1},
